@@ -515,12 +515,12 @@ fn c18a_xz_block_size_respected() {
     let data = [0u8; 8];
     let n: usize = kani::any();
     kani::assume(n <= 8);
+    kani::cover!(s + n as u64 > b, "write straddles the block limit");
     let r = w.write(&data[..n]);
     assert!(s + acc.get() <= b, "C18-A: a block received more uncompressed data than the configured block size");
     if let Ok(k) = r {
         assert!(k <= n);
     }
-    kani::cover!(s + n as u64 > b, "write straddles the block limit");
     kani::cover!(s + n as u64 <= b && n > 0, "write fits");
     core::mem::forget(w);
 }
